@@ -240,6 +240,26 @@ def run_case(case, only_a=None):
             except Exception as e:  # noqa: BLE001
                 fails.append(fail("changing-ACKNOWLEDGED-raises", case, "accepted", f"{type(e).__name__}: {e}", a_i))
             cell.append(held_cell)
+            # "only the last call counts": resetting the component acknowledgement and the snooze to None on the SAME
+            # Alarms object leaves only the alarm's own ACKNOWLEDGED
+            try:
+                alarms.acknowledge_until(None)
+                alarms.snooze_until(None)
+                t0 = alarms.times[0]
+                model3 = M.is_active(specs[0]["T"], new_ack, None, None)
+                missing_tz = needs_local and local == "unset"
+                must3 = missing_tz and new_ack is not None
+                try:
+                    got3 = t0.is_active()
+                except LocalTimezoneMissing:
+                    got3 = "LocalTimezoneMissing"
+                ok3 = ((got3 == "LocalTimezoneMissing") if must3 else (got3 is model3)) if missing_tz else got3 is model3
+                if not ok3:
+                    fails.append(fail("is_active-after-resetting-acknowledgement-and-snooze-to-None", case,
+                                      ("LocalTimezoneMissing" if must3 else model3), got3, a_i))
+                cell.append(got3)
+            except Exception as e:  # noqa: BLE001
+                fails.append(fail("resetting-to-None-raises", case, "accepted", f"{type(e).__name__}: {e}", a_i))
         row.append(tuple(cell))
     # monotonicity in A on the observations: once inactive, later acknowledgements keep it inactive
     if only_a is None:
